@@ -364,6 +364,9 @@ func fnName(r *RegCfg) (string, error) {
 			return fmt.Sprintf("C%d%s_pi_%s", r.Slot, r.Var, x), nil
 		}
 	}
+	if (r.Shape == "ctor" || r.Shape == "ctorerr") && r.Po && len(r.Params) == 1 && r.Params[0].T == "ctx" && r.Params[0].K == "k" && r.Params[0].B == "-" {
+		return fmt.Sprintf("C%d%s_bk", r.Slot, r.Var), nil
+	}
 	isB3 := len(r.Params) >= 3 && r.Params[0].B == "ctx" && r.Params[1].B == "scope" && r.Params[2].B == "prov"
 	switch r.Shape {
 	case "ctor", "ctorerr":
